@@ -29,8 +29,22 @@ def one_request(ctx, rng, case, req, executor, prefix=""):
     witness = {"schema_sdl": case.sdl, "world_seed": case.world.seed, "document": text,
                "operation": op.name, "variables": variables, "executor": executor}
     ref = refexec.reference_result(case.ir, doc, op, variables, case.world)
+    # a third of the documents are handed over pre-parsed; the same Document object then serves every
+    # re-issue of the request and must come out of each execution unmodified
+    request = text
+    printed = None
+    cache = case.__dict__.setdefault("parsed_documents", {})
+    if text in cache or len(text) % 3 == 0:
+        from py_gql.lang import parse, print_ast
+
+        if text not in cache:
+            cache[text] = parse(text)
+        request = cache[text]
+        printed = print_ast(request)
+        witness["pre_parsed_document"] = True
+        ctx.count("requests_with_pre_parsed_document")
     try:
-        result = exec_mon.run_blocking(case, text, op, variables, executor)
+        result = exec_mon.run_blocking(case, request, op, variables, executor)
     except Exception as e:
         if ref[0] == "crash":
             return None
@@ -38,6 +52,12 @@ def one_request(ctx, rng, case, req, executor, prefix=""):
         return None
     ctx.evaluated()
     ctx.count("requests:" + executor)
+    if printed is not None:
+        from py_gql.lang import print_ast
+
+        if print_ast(request) != printed:
+            ctx.violation(prefix + "document-modified-by-execution", witness, "printed form of the Document differs after the request")
+            cache.pop(text, None)
     compared = exec_mon.check_against_reference(ctx, case, doc, text, op, variables, result, ref, witness, prefix)
     if compared and ref[0] == "ok":
         feats = set(doc.features)
